@@ -1222,7 +1222,7 @@ theorem replaceChild_refused (cfg : Cfg) (t : Tree) (p old new : Nat)
 yet; the user names current children (once each) as starting nodes -/
 def OpPre (t : Tree) : Op → Prop
   | .new c _ _ => t.parent c = none
-  | .setStarting p l => (∀ s ∈ l, ∃ k, (k, s) ∈ t.children p) ∧ l.Nodup
+  | .setStarting p l => (∀ s ∈ l, s ∈ vals (t.children p)) ∧ l.Nodup
   | _ => True
 
 def Op.isReplace : Op → Bool
@@ -1239,7 +1239,8 @@ theorem step_good {cfg : Cfg} (hr : Repaired cfg) {t : Tree} (h : WFTree t) (op 
   | remove p c => exact removeChild_good cfg h p c
   | removeLabel p l => exact removeChildLabel_good cfg h p l
   | replace p o n => simp [Op.isReplace] at hnr
-  | setStarting p l => exact ⟨fun _ => setStarting_wf h p l hpre.1 hpre.2, fun hn => absurd rfl hn⟩
+  | setStarting p l =>
+    exact ⟨fun _ => setStarting_wf h p l (fun s hs => mem_vals.mp (hpre.1 s hs)) hpre.2, fun hn => absurd rfl hn⟩
 
 /-- every operation, accepted or rejected, leaves a well-formed tree (unless Python's recursion
 limit was hit on the way) -/
@@ -1258,6 +1259,15 @@ theorem step_wf {cfg : Cfg} (hr : Repaired cfg) {t : Tree} (h : WFTree t) (op : 
 def Admissible (cfg : Cfg) : Tree → List Op → Prop
   | _, [] => True
   | t, op :: r => OpPre t op ∧ (step cfg t op).2 ≠ .recursionError ∧ Admissible cfg (step cfg t op).1 r
+
+instance (t : Tree) (op : Op) : Decidable (OpPre t op) := by
+  cases op <;> simp only [OpPre] <;> infer_instance
+
+instance decAdmissible (cfg : Cfg) : (t : Tree) → (ops : List Op) → Decidable (Admissible cfg t ops)
+  | _, [] => isTrue trivial
+  | t, op :: r =>
+    have := decAdmissible cfg (step cfg t op).1 r
+    by simp only [Admissible]; infer_instance
 
 theorem run_wf {cfg : Cfg} (hr : Repaired cfg) : ∀ (ops : List Op) (t : Tree), WFTree t →
     Admissible cfg t ops → WFTree (run cfg t ops) := by
